@@ -54,7 +54,7 @@ def gen_case(rng, k, thorough):
     else:
         n = rng.choice([1, 1, 2, 3, 5, 8, 13, 20, 40, 80, 150, 300])
     m = rng.choice([1, 1, 2, 2, 3, 4, 5, 7, 10])
-    return {"id": k, "seed": rng.randrange(1 << 30), "n": n, "m": m,
+    return {"id": k, "seed": rng.randrange(1 << 30), "n": n, "m": m, "unit": [1.0, 1.0, 3e-5, 1.0, 2e-4, 1e3][k % 6],
             "skind": rng.choice(S_KINDS), "xkind": rng.choice(X_KINDS),
             "dups": rng.random() < 0.35, "nobs": 4 if n <= 300 else 3,
             "x2": sorted(set([-1.0, rng.choice([0.0, 0.1, 0.5, 2.0]), rng.choice([5.0, 10.0, 10.0, 30.0]),
@@ -113,6 +113,11 @@ def build(case):
             yo = y[i] + sig * 1e5
         obs.append((ok, np.asarray(yo, dtype=float)))
     perm = g.permutation(n)
+    # the unit of y: the same problem with every radiance multiplied by u (S by u^2) -- weights, estimates, cdf and quantiles do
+    # not depend on it; small units put the entries of S near or below the absolute tolerances numerical code likes to use
+    u = float(case.get("unit", 1.0))
+    if u != 1.0:
+        y, S, obs = y * u, S * (u * u), [(ok, yo * u) for ok, yo in obs]
     return y, x, S, obs, perm
 
 
